@@ -460,6 +460,7 @@ def run_pipelines(jobs, driver, timeout=1500, keep_lines=5):
     import concurrent.futures as cf
     res = {"cases": 0, "ops": 0, "mismatches_model": 0, "mismatches_spec": 0, "distinct_nontrivial": 0,
            "mismatch_lines": [], "opcount": {}, "samples": [], "failed_jobs": [], "extra": {}}
+    per_label = {}
 
     def one(job):
         label, argv = job
@@ -472,7 +473,10 @@ def run_pipelines(jobs, driver, timeout=1500, keep_lines=5):
             got_summary = False
             for line in out.split("\n"):
                 if line.startswith("MISMATCH"):
-                    if len(res["mismatch_lines"]) < 200:
+                    # the first 200 lines, plus up to 12 lines of every job (a flood from one
+                    # component must not hide the first mismatches of another), 3000 at most
+                    per_label[label] = per_label.get(label, 0) + 1
+                    if len(res["mismatch_lines"]) < 200 or (per_label[label] <= 12 and len(res["mismatch_lines"]) < 3000):
                         res["mismatch_lines"].append((label, " ".join(argv), line))
                 elif line.startswith("SUMMARY"):
                     got_summary = True
